@@ -304,7 +304,15 @@ Definition run_c04_flow (args : list sx) : sx :=
     ret (L [sx_bool v; sx_nat (exit_status v); sx_rep (report c (run c (scen_ops s)))])
   | _ => None end).
 
+(* the same through the real Run(), which does not expose report()'s own return value:
+   the first field of the report part carries the verdict *)
+Definition run_c04_run (args : list sx) : sx :=
+  match run_c04_flow args with
+  | L [v; st; L (_ :: rep)] => L [v; st; L (v :: rep)]
+  | x => x
+  end.
+
 Definition c04_table : list (bytes * (list sx -> sx)) :=
   [ (bs "c04.results", run_c04_results);
     (bs "c04.flow", run_c04_flow);
-    (bs "c04.run", run_c04_flow) ].
+    (bs "c04.run", run_c04_run) ].
